@@ -119,6 +119,8 @@ func lexTemplate(l *lexer) lexFn {
 
 func lexGohtStart(l *lexer) lexFn {
 	l.ignore()
+	// every template starts over: its first line must be indented again
+	l.indent = 0
 	l.skipRun(" ")
 	l.acceptUntil(")")
 	if strings.HasPrefix(l.current(), "(") {
